@@ -162,6 +162,9 @@ func (l *peerLedger) ClearPeerWantlist(p peer.ID) {
 	for c := range cids {
 		l.removePeerFromCid(p, c)
 	}
+	// Forget the wants on the peer side too (keeping the map for reuse), so
+	// that the two maps stay inversions of each other.
+	clear(cids)
 }
 
 func (l *peerLedger) PeerDisconnected(p peer.ID) {
